@@ -276,23 +276,30 @@ class Scheduler:
                     raise exc
                 raise ThreadAbort()
 
-    def yield_point(self, tag: str = "") -> None:
+    def yield_point(self, tag: str = "", force: bool = False) -> bool:
+        """scheduling point; force=True: if another thread is runnable it MUST run now (used by a thread that is polling
+        without waiting, e.g. a loop spinning on select(0): the OS would pre-empt it).  Returns True if it switched."""
         if not self.active or self.aborting:
-            return
+            return False
         me = self.current
         if me is None or _thread.get_ident() != me.real_ident:
-            return  # a non-simulated thread (should not happen)
+            return False  # a non-simulated thread (should not happen)
         run = self._runnable()
         if len(run) <= 1:
-            return
+            return False
         # order: me first, then the others by index => choice 0 = keep running
         others = [t for t in run if t is not me]
+        if force:
+            nxt = others[self.world.choose("sched.poll", len(others))]
+            self._switch(nxt)
+            return True
         k = self.world.choose("sched." + tag, len(others) * 1 + self.switch_den)
         if k < self.switch_den:
-            return
+            return False
         nxt = others[(k - self.switch_den) % len(others)]
         self.world.fault("thread_preempt")
         self._switch(nxt)
+        return True
 
     def block(self, wake: Callable[[], bool], deadline: float | None, what: str = "") -> bool:
         """park the current thread until wake() is true (returns True) or the deadline passed (returns False)"""
